@@ -1851,6 +1851,11 @@ func (m *repoManager) resetBranchHeads(r *repoT) {
 // newVersion creates a new version as a child of the given parent.  If the
 // assign parameter is not nil, the new node is given the UUID.
 func (m *repoManager) newVersion(parent dvid.UUID, note string, branchname string, assign *dvid.UUID) (dvid.UUID, error) {
+	// In a "uuid:branch~N" address '~' separates the branch name from a parent number, so a
+	// branch named with it could not be addressed (or would address a version of another branch).
+	if strings.Contains(branchname, "~") {
+		return dvid.NilUUID, fmt.Errorf("branch name %q must not contain '~'", branchname)
+	}
 	r, err := m.repoFromUUID(parent)
 	if err != nil {
 		return dvid.NilUUID, err
